@@ -63,6 +63,9 @@ def repo_rev():
         return 'unknown'
 
 
+_REPLAY_BUILT = {}
+
+
 def native_replay(unit, replay_path):
     """compile replay/<driver>.cpp against the real /repo headers and run it on the
     replay file.  returns dict(reproduced=bool|None, detail=str)"""
@@ -95,13 +98,18 @@ def native_replay(unit, replay_path):
            '-I', os.path.join(VERIF, 'replay'), src, '-o', exe]
     if getattr(unit, 'replay_asan', False):
         cmd[1:1] = ['-fsanitize=address,undefined', '-fno-omit-frame-pointer']
-    try:
-        p = subprocess.run(cmd, stdout=subprocess.PIPE, stderr=subprocess.STDOUT, timeout=600)
-    except subprocess.TimeoutExpired:
-        return {'reproduced': None, 'detail': 'replay compile timeout'}
-    if p.returncode != 0:
-        return {'reproduced': None, 'detail': 'replay driver does not compile against the current tree: '
-                + p.stdout.decode('utf-8', 'replace')[-1500:]}
+    # one compile per (driver, flags, tree) and process: a defect that fails many obligations is replayed once per
+    # obligation, the driver binary is the same for all of them
+    ckey = (src, tuple(cmd), os.path.realpath(X.REPO))
+    if not os.path.exists(exe) or _REPLAY_BUILT.get(ckey) != os.path.getmtime(exe):   # also rebuilt when another run replaced the binary
+        try:
+            p = subprocess.run(cmd, stdout=subprocess.PIPE, stderr=subprocess.STDOUT, timeout=600)
+        except subprocess.TimeoutExpired:
+            return {'reproduced': None, 'detail': 'replay compile timeout'}
+        if p.returncode != 0:
+            return {'reproduced': None, 'detail': 'replay driver does not compile against the current tree: '
+                    + p.stdout.decode('utf-8', 'replace')[-1500:]}
+        _REPLAY_BUILT[ckey] = os.path.getmtime(exe)
     try:
         env = dict(os.environ)
         env.setdefault('OMP_NUM_THREADS', '4')
